@@ -12,7 +12,7 @@ import ast
 import inspect
 import z3
 
-from .sorts import (Sym, SInt, SBool, SBytes, SStr, SVal, SVL, SF64, Val, VL, Bytes, Int, Bool, F64, SORTS,
+from .sorts import (SReal, Real, Sym, SInt, SBool, SBytes, SStr, SVal, SVL, SF64, Val, VL, Bytes, Int, Bool, F64, SORTS,
                     WRAP, seq_lit, fresh, typeof, typeof_axiom, wrap_sort, TYPE_ID)
 from . import ops
 from .ops import Unsupported, truth, b2v, i2v, zint, zbool, zseq, to_val, to_vl, TRUE, FALSE, is_sym
@@ -100,6 +100,7 @@ class SpecEnv(object):
         self.max_unfold = 2
         self.exc_names = {}
         self.missing_event_notes = []
+        self.revealed = set()
         self._install_prims()
 
     # -- registration -------------------------------------------------------------------------
@@ -168,6 +169,9 @@ class SpecEnv(object):
         """c = canon(l): canonical, and its elements are elements of l (duplicates collapse), so every
         predicate that is a conjunction over the elements carries over from l to c"""
         facts = [self.uf["canon"](c.z) == c.z]
+        v, fs = self.evaluate(engine, "vlen(c) <= vlen(l)", st, st, {"c": c, "l": l})
+        facts.extend(fs)
+        facts.append(ops._z(truth(v)))
         for name in self.consts.get("PERM_INVARIANT", []):
             if name == "vlen":
                 continue
@@ -266,6 +270,8 @@ class SpecEnv(object):
             finally:
                 self.depth = d
             self.fact(ops._z(truth(pv)))
+        if getattr(rs.fn, "_spec_opaque", False) and rs.name not in self.revealed:
+            return wrap_as(app, rs.retsort)
         if self.depth < self.max_unfold or (self.depth < 12 and self.concrete_spine(zargs)):
             key = (app.sexpr(), self.depth)
             if key not in self.unfold_cache:
@@ -279,8 +285,11 @@ class SpecEnv(object):
                 finally:
                     self.facts_sink = sink
                     self.depth -= 1
-                defn = app == self.to_sort(body, rs.retsort)
-                self.unfold_cache[key] = [defn] + inner
+                # the definition as guarded equations, one per leaf of the body's case analysis (the sequence
+                # solvers handle `c => f(x) == leaf` far better than `f(x) == ite(c, leaf, ...)`)
+                defs = [z3.Implies(g, app == leaf) if g is not None else app == leaf
+                        for g, leaf in ite_leaves(self.to_sort(body, rs.retsort))]
+                self.unfold_cache[key] = defs + inner
             for f in self.unfold_cache[key]:
                 self.fact(f)
         return wrap_as(app, rs.retsort)
@@ -296,11 +305,16 @@ class SpecEnv(object):
                 zs = z3.simplify(z)
                 if z3.is_app(zs) and zs.decl().name() in ("VTuple", "VSlice", "VFset") and self.depth < 4:
                     return True
+                if z3.is_app(zs) and zs.decl().name() in ("VNone", "VNotImpl", "VEllipsis", "VBool", "VInt", "VFloat",
+                                                            "VComplex", "VBytes", "VStr", "VRef") and self.depth < 8:
+                    return True      # an explicit constructor: the case analysis of the definition collapses
         return False
 
     def to_sort(self, v, sort):
         if sort == "int":
             return zint(v)
+        if sort == "real":
+            return ops.zreal(v)
         if sort == "bool":
             t = truth(v)
             return z3.BoolVal(t) if isinstance(t, bool) else t
@@ -360,6 +374,15 @@ class SpecEnv(object):
         order_of = U("order_of", VL, VL)
         canon = U("canon", VL, VL)
         int_str = U("int_str", Int, Bytes)
+        f64_real = U("f64_real", F64, Real)
+
+        def p_now(ctx):
+            """the ghost clock: the latest value time.time() returned (non-decreasing)"""
+            return ctx.st.ghost["$now"] if "$now" in ctx.st.ghost else ctx.engine.clock0()
+        P["now"] = p_now
+        P["num_of"] = lambda ctx, v: SReal(z3.If(Val.is_VInt(to_val(v)), z3.ToReal(Val.vi(to_val(v))), f64_real(Val.vf(to_val(v)))))
+        P["isnum"] = lambda ctx, v: b2v(z3.Or(Val.is_VInt(to_val(v)), Val.is_VFloat(to_val(v)))) if isinstance(v, (SVal,)) or v is None else ops.is_reallike(v)
+        P["is_heap_obj"] = lambda ctx, v: isinstance(v, ops.HeapRef)
         sent_part = U("sent_part", Bytes, Bytes, Bytes)
         has_attr = U("has_attr", Val, Bytes, Bool)
         class_attr = U("class_attr", Int, Bytes, Val, Val)
@@ -417,7 +440,13 @@ class SpecEnv(object):
         P["dec"] = p_dec
         P["undec"] = lambda ctx, b: SInt(undec(zseq(b)))
         P["is_decimal"] = lambda ctx, b: b2v(is_decimal(zseq(b)))
-        P["renderable"] = lambda ctx, i: b2v(renderable(zint(i)))
+        def p_renderable(ctx, i):
+            z = zint(i)
+            # integers of up to 600 digits can always be rendered (the interpreter's limit cannot be set below 640)
+            small = z3.And(z > -10 ** 600, z < 10 ** 600)
+            self.fact(z3.Implies(small, z3.And(renderable(z), z3.Length(dec(z)) <= 601)))
+            return b2v(renderable(z))
+        P["renderable"] = p_renderable
 
         def p_zcomp(ctx, d, lvl):
             t = zcomp(zseq(d), zint(lvl))
@@ -451,7 +480,15 @@ class SpecEnv(object):
         P["n_callees"] = lambda ctx, name: len([e for e in ctx.st.trace if e[0] == "Callee" and e[1] == name])
         P["callee_arg"] = lambda ctx, name, i, p: [e for e in ctx.st.trace if e[0] == "Callee" and e[1] == name][i][2][p]
         P["callee_result"] = lambda ctx, name, i: [e for e in ctx.st.trace if e[0] == "Callee" and e[1] == name][i][3]
+        def p_known_handler(ctx, h):
+            keys = sorted(ctx.S.consts["HANDLERS"])
+            return b2v(z3.Or([ops._z(ops.eq(h, k)) for k in keys]))
+        P["known_handler"] = p_known_handler
+        P["is_close_handler"] = lambda ctx, h: b2v(ops._z(ops.eq(h, ctx.S.consts["HANDLE_CLOSE"])))
+        P["loop_ghost"] = lambda ctx, i, g: [e for e in ctx.st.trace if e[0] == "Loop"][i][2][g]
         P["n_events"] = lambda ctx: len(ctx.st.trace)
+        P["n_ev"] = lambda ctx, kind: len([e for e in ctx.st.trace if e[0] == kind])
+        P["ev_arg"] = lambda ctx, kind, i, k: [e for e in ctx.st.trace if e[0] == kind][i][k]
         P["typeobj"] = lambda ctx, v: SVal(Val.VRef(-1 - typeof(to_val(v))))
 
         def p_all_calls_from(ctx, name):
@@ -569,6 +606,21 @@ class SpecEnv(object):
         P["tid"] = lambda ctx, t: TYPE_ID[t]
 
 
+def ite_leaves(term, guard=None, limit=64):
+    """[(guard | None, leaf)] for the top-level if-then-else tree of a term"""
+    out = []
+
+    def go(t, g):
+        if z3.is_app(t) and t.decl().kind() == z3.Z3_OP_ITE and len(out) < limit:
+            c, a, b = t.children()
+            go(a, c if g is None else z3.And(g, c))
+            go(b, z3.Not(c) if g is None else z3.And(g, z3.Not(c)))
+        else:
+            out.append((g, t))
+    go(term, guard)
+    return out
+
+
 _FALLTHROUGH = object()
 
 
@@ -598,6 +650,8 @@ def merge_values(c, a, b):
         return a
     if isinstance(a, tuple) and isinstance(b, tuple) and len(a) == len(b):
         return tuple(merge_values(c, x, y) for x, y in zip(a, b))
+    if (isinstance(a, SReal) or isinstance(b, SReal)) and ops.is_reallike(a) and ops.is_reallike(b):
+        return SReal(z3.If(c, ops.zreal(a), ops.zreal(b)))
     for test, conv, W in ((ops.is_intlike, zint, SInt), (ops.is_byteslike, zseq, SBytes), (ops.is_strlike, zseq, SStr)):
         if test(a) and test(b) and not isinstance(a, bool) and not isinstance(b, bool):
             return W(z3.If(c, conv(a), conv(b)))
@@ -697,7 +751,10 @@ class Ctx(object):
             return v
         if is_sym(o):
             raise Unsupported("spec: attribute %s of symbolic %r" % (e.attr, o))
-        return getattr(o, e.attr)
+        try:
+            return getattr(o, e.attr)
+        except Exception as ex:
+            raise Unsupported("spec: attribute %s of %r raises %r" % (e.attr, type(o).__name__, ex))
 
     def x_Subscript(self, e):
         o = self.ev(e.value)
@@ -779,6 +836,9 @@ class Ctx(object):
                 a, b = [self.ev(x) for x in e.args]
                 if not is_sym(a) and not is_sym(b):
                     return min(a, b) if n == "min" else max(a, b)
+                if isinstance(a, SReal) or isinstance(b, SReal):
+                    c = ops.zreal(a) <= ops.zreal(b)
+                    return SReal(z3.If(c, ops.zreal(a), ops.zreal(b)) if n == "min" else z3.If(c, ops.zreal(b), ops.zreal(a)))
                 c = zint(a) <= zint(b)
                 return i2v(z3.If(c, zint(a), zint(b)) if n == "min" else z3.If(c, zint(b), zint(a)))
             if n in self.scope and callable(self.scope[n]):
